@@ -1,7 +1,6 @@
 package main
 
 import (
-	"os"
 	"bytes"
 	"encoding/json"
 	"flag"
@@ -9,6 +8,7 @@ import (
 	"hash/fnv"
 	"image"
 	"image/color"
+	"os"
 	"regexp"
 	"strconv"
 	"strings"
@@ -17,6 +17,7 @@ import (
 	"github.com/reactivego/ivg"
 	"github.com/reactivego/ivg/decode"
 	"github.com/reactivego/ivg/encode"
+	"github.com/reactivego/ivg/raster/vec"
 	"github.com/reactivego/ivg/render"
 )
 
@@ -74,6 +75,7 @@ type endEv struct {
 	EncOK     *int   `json:"encok,omitempty"`
 	NilDst    *int   `json:"nildst,omitempty"`
 	LogDst    *int   `json:"logdst,omitempty"`
+	VecDst    *int   `json:"vecdst,omitempty"` // Decode into a Renderer that draws through a real raster/vec.Rasterizer
 }
 
 func intp(i int) *int { return &i }
@@ -231,6 +233,21 @@ func traceDecode(w *Writer, id string, src0 []byte, fl decFlags) (ncalls int, ac
 		ee.LogDst = intp(ol.ok())
 		if ol.panicv != nil || ol.hang {
 			ee.Panic = 1
+		}
+		// rendering for real: a Renderer whose rasteriser samples the paints (raster/vec over an RGBA image) - same
+		// outcome, no panic, whatever the paints are
+		if len(src) <= 1<<14 {
+			oz := guarded(func() error {
+				img := image.NewRGBA(image.Rect(0, 0, 24, 20))
+				var rd render.Renderer
+				rd.SetRasterizer(vec.NewRasterizer(img), image.Rect(2, 1, 22, 19))
+				return decode.Decode(&rd, src, fl.opts...)
+			})
+			ee.VecDst = intp(oz.ok())
+			if oz.panicv != nil || oz.hang {
+				ee.Panic = 1
+				ee.Err = fmt.Sprint("panic while rendering through raster/vec: ", oz.panicv)
+			}
 		}
 	}
 	if fl.encoder {
